@@ -31,12 +31,12 @@ def main(run: Run) -> int:
                 lo, acc = i + 1, 0
 
     for k, (lo, hi) in enumerate(parts(3, 60)):
-        jobs.append({"fn": "resolve", "globals": dict(g, FLAGS=3, LO=lo, HI=hi), "timeout": 900, "bound": "expressions of this partition x package tables x resolver yields; resolve_packages=True, replace_time_conditions=True"})
+        jobs.append({"fn": "resolve", "globals": dict(g, FLAGS=3, LO=lo, HI=hi, HISTORY=1 if (thorough or k % 2 == 0) else 0), "timeout": 900, "bound": "expressions of this partition x package tables x resolver yields; resolve_packages=True, replace_time_conditions=True" + ("; each resolution preceded by one with another table on the same resolver instance (real caches)" if (thorough or k % 2 == 0) else "")})
     # the other flag combinations: every 3rd partition in the quick tier, all in the thorough tier
     for fl in (1, 2, 0):
         for k, (lo, hi) in enumerate(parts(fl, 90)):
-            if thorough or k % 3 == fl:
-                jobs.append({"fn": "resolve", "globals": dict(g, FLAGS=fl, LO=lo, HI=hi), "timeout": 900, "bound": f"flags resolve_packages={bool(fl & 1)}, replace_time_conditions={bool(fl & 2)}"})
+            if thorough or k % 4 == fl:
+                jobs.append({"fn": "resolve", "globals": dict(g, FLAGS=fl, LO=lo, HI=hi, HISTORY=1 if thorough else 0), "timeout": 900, "bound": f"flags resolve_packages={bool(fl & 1)}, replace_time_conditions={bool(fl & 2)}"})
     jobs.sort(key=lambda j: -(j["globals"]["HI"] - j["globals"]["LO"]))
     feats = lambda r, rep: {"part": "resolve"}  # noqa: E731
     for r, j in zip(xh.run_jobs(run, "vf.harness.resolve_harness", jobs), jobs):
